@@ -278,9 +278,16 @@ def arm_signature(vm: VMModel, opcode: str) -> Optional[Tuple[str, str]]:
     # the two names bound to the values of Values[0] / Values[1] in the enclosing binary-family arm
     names = {}
     holder = arm.outer.body if getattr(arm, "outer", None) is not None else arm.body
+    from .sem import rtext as _rt_as
+
+    binds = {}
     for st in holder:
         if isinstance(st, ast.Assign) and len(st.targets) == 1 and isinstance(st.targets[0], ast.Name):
-            t = unparse(st.value)
+            binds[st.targets[0].id] = None if st.targets[0].id in binds else st.value
+    env_as = {k: v for k, v in binds.items() if v is not None}
+    for st in holder:
+        if isinstance(st, ast.Assign) and len(st.targets) == 1 and isinstance(st.targets[0], ast.Name):
+            t = _rt_as(st.value, {k: v for k, v in env_as.items() if k != st.targets[0].id})  # `operands = instruction.Values` read in place
             for i in (0, 1):
                 if f"Values[{i}]" in t and "localScope" in t:
                     names[i] = st.targets[0].id
